@@ -6,6 +6,7 @@ package main
 
 import (
 	"fmt"
+	"go/types"
 	"math/big"
 	"sort"
 	"strings"
@@ -593,6 +594,17 @@ func (x *Explorer) intrinsic(fr *Frame, st *State, ins *ssa.Call, callee *ssa.Fu
 				as = append(as, st.canon(args[i+1]))
 			}
 			k.Name = nt.Obj().Name() + "." + callee.Name() + "(" + strings.Join(as, ", ") + ")"
+			k.PrefixOnly = -1
+			if n := callee.Signature.Params().Len(); n > 0 && x.terminalKey(nt, n) {
+				switch lt := callee.Signature.Params().At(n - 1).Type().Underlying().(type) {
+				case *types.Basic:
+					if lt.Kind() == types.String {
+						k.PrefixOnly = n - 1
+					}
+				case *types.Slice:
+					k.PrefixOnly = n - 1
+				}
+			}
 			return k, true
 		}
 	}
@@ -603,6 +615,37 @@ func (x *Explorer) intrinsic(fr *Frame, st *State, ins *ssa.Call, callee *ssa.Fu
 		}
 	}
 	return nil, false
+}
+
+// terminalKey: the With… method with n parameters binds *all* components of a primary key or of a unique
+// index (nothing follows the last component in the encoded key, so a trailing string is unterminated).
+func (x *Explorer) terminalKey(keyType *types.Named, n int) bool {
+	name := keyType.Obj().Name()
+	// the full key is the With… method with the most parameters
+	max := 0
+	for i := 0; i < keyType.NumMethods(); i++ {
+		if m := keyType.Method(i); strings.HasPrefix(m.Name(), "With") {
+			if sig, ok := m.Type().(*types.Signature); ok && sig.Params().Len() > max {
+				max = sig.Params().Len()
+			}
+		}
+	}
+	if n != max {
+		return false
+	}
+	if strings.HasSuffix(name, "PrimaryKey") {
+		return true
+	}
+	for _, t := range x.M.Tables {
+		if !strings.HasPrefix(name, t.Name) {
+			continue
+		}
+		rest := strings.TrimSuffix(strings.TrimPrefix(name, t.Name), "IndexKey")
+		if _, uniq := t.Unique["GetBy"+rest]; uniq {
+			return true
+		}
+	}
+	return false
 }
 
 // intFromString models sdk.NewIntFromString (base-0 big.Int.SetString!).
